@@ -112,3 +112,48 @@ Proof.
     replace (len a <? start + l - two64) with false by (symmetry; apply Z.ltb_ge; rewrite two64_eq; lia).
     intro H. apply go_slice_ok in H. rewrite two64_eq in H. lia.
 Qed.
+
+(* ---------------------------------------------------------------- *)
+(* Totality: with arguments in the int32 range (what projectSliceInt returns
+   since /repo a10b5fe) the window computations never panic. *)
+
+Definition int32r (z : Z) : Prop := - two31 <= z < two31.
+
+Lemma two31_lt_two63 : two31 < two63. Proof. reflexivity. Qed.
+
+Lemma go_slice_total a lo hi : 0 <= lo <= hi -> hi <= len a -> exists w, go_slice a lo hi = Ok w.
+Proof.
+  intros H1 H2. unfold go_slice.
+  replace (0 <=? lo) with true by (symmetry; apply Z.leb_le; lia).
+  replace (lo <=? hi) with true by (symmetry; apply Z.leb_le; lia).
+  replace (hi <=? len a) with true by (symmetry; apply Z.leb_le; lia).
+  cbn [andb]. eauto.
+Qed.
+
+Lemma slice_limit_total a n : int32r n -> len a < two63 -> exists w, slice_limit a n = Ok w.
+Proof.
+  intros Hn Hl. unfold slice_limit, int32r in *. pose proof (len_nonneg a) as Hl0.
+  pose proof two31_lt_two63 as H31.
+  destruct (0 <? n) eqn:E1.
+  - apply Z.ltb_lt in E1. destruct (n <? len a) eqn:E2; [|eauto].
+    apply Z.ltb_lt in E2. apply go_slice_total; lia.
+  - destruct (n <? 0) eqn:E3; [|eauto]. apply Z.ltb_lt in E3.
+    rewrite (wrap64_id (- n)) by (unfold int64; lia).
+    destruct (- n <? len a) eqn:E4; [|eauto]. apply Z.ltb_lt in E4.
+    rewrite (wrap64_id (len a - - n)) by (unfold int64; lia).
+    apply go_slice_total; lia.
+Qed.
+
+Lemma slice_skip_limit_total a s l :
+  int32r s -> int32r l -> 0 <= l -> len a < two63 - two31 -> exists w, slice_skip_limit a s l = Ok w.
+Proof.
+  intros Hs Hl Hl0 Hlen. unfold slice_skip_limit, int32r in *. pose proof (len_nonneg a) as Ha0.
+  pose proof two31_lt_two63 as H31.
+  set (start := if s <? 0 then (if len a + s <? 0 then 0 else len a + s) else (if len a <? s then len a else s)).
+  assert (Hst : 0 <= start <= len a).
+  { subst start. destruct (s <? 0) eqn:E; [destruct (len a + s <? 0) eqn:E'|destruct (len a <? s) eqn:E'];
+      try apply Z.ltb_lt in E; try apply Z.ltb_ge in E; try apply Z.ltb_lt in E'; try apply Z.ltb_ge in E'; lia. }
+  rewrite (wrap64_id (start + l)) by (unfold int64; lia).
+  destruct (len a <? start + l) eqn:E; [apply Z.ltb_lt in E|apply Z.ltb_ge in E];
+    apply go_slice_total; lia.
+Qed.
